@@ -34,6 +34,7 @@ type c12rtScenario struct {
 	EditDelay int    `json:"edit_delay"` // seconds between creation and the edit
 	EditPhase int64  `json:"edit_phase"` // sub-second phase of the edit instant
 	Edit      string `json:"edit"`       // comment | creator | end | all
+	List      bool   `json:"list"`       // the client reads GET /api/v2/silences (filtered by the matcher) instead of /silence/{id}
 }
 
 func genC12ApiRoundTrip(t *rapid.T) c12rtScenario {
@@ -51,7 +52,7 @@ func genC12ApiRoundTrip(t *rapid.T) c12rtScenario {
 	}
 	return c12rtScenario{PhaseNs: phase("phase"), Pending: rapid.IntRange(0, 3).Draw(t, "pending") == 0, StartNs: phase("start"),
 		EditDelay: rapid.SampledFrom([]int{0, 1, 30, 200}).Draw(t, "delay"), EditPhase: phase("editPhase"),
-		Edit: rapid.SampledFrom([]string{"comment", "creator", "end", "all"}).Draw(t, "edit")}
+		Edit: rapid.SampledFrom([]string{"comment", "creator", "end", "all"}).Draw(t, "edit"), List: rapid.IntRange(0, 2).Draw(t, "list") == 0}
 }
 
 func execC12ApiRoundTrip(sc c12rtScenario) (res pbt.Result) {
@@ -101,6 +102,21 @@ func execC12ApiRoundTrip(sc c12rtScenario) (res pbt.Result) {
 			return
 		}
 		get := func() map[string]any {
+			if sc.List {
+				code, body := do(http.MethodGet, "/api/v2/silences?filter=a%3D%22x%22", nil)
+				var l []map[string]any
+				if code != 200 || json.Unmarshal(body, &l) != nil {
+					res.Add(pbt.V("get-failed", "GET /silences answered %d %s", code, body))
+					return nil
+				}
+				for _, m := range l {
+					if m["id"] == created.SilenceID {
+						return m
+					}
+				}
+				res.Add(pbt.V("get-failed", "GET /silences?filter=a=\"x\" does not list the silence %s just created or edited: %s", created.SilenceID, body))
+				return nil
+			}
 			code, body := do(http.MethodGet, "/api/v2/silence/"+created.SilenceID, nil)
 			var m map[string]any
 			if code != 200 || json.Unmarshal(body, &m) != nil {
@@ -160,7 +176,7 @@ func execC12ApiRoundTrip(sc c12rtScenario) (res pbt.Result) {
 func TestC12ApiRoundTrip(t *testing.T) {
 	pbt.Run(t, pbt.Spec[c12rtScenario]{
 		Property: "C12", Name: "C12ApiRoundTrip",
-		Rule: "the real silence store behind the real API v2 handlers in a bubble; a silence is created at an instant whose sub-second phase is generated down to the nanosecond (uniform, around the half-millisecond and the last millisecond of a second) with a start in the past (replaced by that instant) or, one case in four, a start 5 min ahead with its own nanosecond part; 0-200 s later, at another generated phase, the client posts back exactly what GET /api/v2/silence/{id} returned with comment and / or creator and / or end changed. The edit is accepted, keeps the id, and GET shows the same start (and the same end unless it was edited). Non-trivial: a sub-millisecond phase is involved.",
+		Rule: "the real silence store behind the real API v2 handlers in a bubble; a silence is created at an instant whose sub-second phase is generated down to the nanosecond (uniform, around the half-millisecond and the last millisecond of a second) with a start in the past (replaced by that instant) or, one case in four, a start 5 min ahead with its own nanosecond part; 0-200 s later, at another generated phase, the client posts back exactly what GET /api/v2/silence/{id} (one case in three: the filtered list GET /api/v2/silences) returned with comment and / or creator and / or end changed. The edit is accepted, keeps the id, and GET shows the same start (and the same end unless it was edited). Non-trivial: a sub-millisecond phase is involved.",
 		Gen:  genC12ApiRoundTrip, Exec: execC12ApiRoundTrip,
 	})
 }
